@@ -77,7 +77,14 @@ def gen_program(rng, small=False):
         if not ch["dirs"]:
             ch["dirs"]["l2r"] = {"pads": [[0, 0]], "mode": "receive", "nrecv": 1, "attach": None}
         chans.append(ch)
-    return {"chans": chans}
+    prog = {"chans": chans}
+    if rng.random() < 0.5:
+        # one more conversation whose receiving side keeps only its callback (gw.remote_exec(..).setcallback(cb) idiom:
+        # the channel object is garbage collected, the callback must go on receiving)
+        nthreads = rng.choice((1, 1, 2))
+        prog["dropped_cb"] = {"receiver": rng.choice(("L", "R")), "pads": [[rng.choice((0, 0, 10, 1000, 70000)) for _ in range(rng.choice((1, 5, 30)))]
+                                                                         for _ in range(nthreads)]}
+    return prog
 
 
 def pad_bytes(side, c, t, s, size):
@@ -164,11 +171,37 @@ def run_program(res: Result, lab, prog, label):
                 th = threading.Thread(target=sender, args=(src, side, ci, t, pads), daemon=True)
                 senders.append(th)
                 th.start()
+    dcb = prog.get("dropped_cb")
+    if dcb:
+        import gc
+
+        dgot: list = []
+        a, b = lab.pair_newchannel_local() if dcb["receiver"] == "R" else tuple(reversed(lab.pair_newchannel_local()))
+        # a = sending end, b = receiving end (on side dcb["receiver"])
+        b.setcallback(dgot.append, endmarker="__DEND__")
+        del b
+        gc.collect()
+        dthreads = []
+
+        def dsender(t, pads):
+            try:
+                for s_, size in enumerate(pads):
+                    a.send(("D", t, s_, pad_bytes("D", 0, t, s_, size)))
+            except BaseException as e:  # noqa
+                errs.append(f"dropped-cb sender {t}: {type(e).__name__}: {e}")
+
+        for t, pads in enumerate(dcb["pads"]):
+            th = threading.Thread(target=dsender, args=(t, pads), daemon=True)
+            dthreads.append(th)
+        res.count("callback_only_receivers")
     try:
         barrier.wait(10)
     except threading.BrokenBarrierError:
         res.violation("harness-barrier-broken", label)
         return False
+    if dcb:
+        for th in dthreads:
+            th.start()
     t0 = time.monotonic()
     for key, dst, dd in sorted(late, key=lambda x: x[2]["attach"]):
         while time.monotonic() - t0 < dd["attach"]:
@@ -202,6 +235,11 @@ def run_program(res: Result, lab, prog, label):
                 res.violation("callback-endmarker-missing", f"{label}: channel {ci} {d}")
         elif not col.join(10.0):
             res.violation(f"receiver-never-saw-close:{col.mode}", f"{label}: channel {ci} {d}")
+    if dcb:
+        for th in dthreads:
+            th.join(20)
+        a.close()
+        chanlab.pairs.wait_until(lambda: "__DEND__" in dgot, 15.0)
     # ---- oracle
     frames_l, rest_l = lab.wire_frames("local")
     frames_r, rest_r = lab.wire_frames("remote")
@@ -259,6 +297,20 @@ def run_program(res: Result, lab, prog, label):
             badend = [e for e in col.ends if e[1] not in ("EOFError", "StopIteration")]
             if badend:
                 res.violation(f"receiver-ended-with:{badend[0][1].split(':')[0]}", f"{label}: channel {ci} {d}: {badend[0]}")
+    if dcb:
+        ditems = [x for x in dgot if x != "__DEND__"]
+        dwant = [("D", t, s_, pad_bytes("D", 0, t, s_, size)) for t, pads in enumerate(dcb["pads"]) for s_, size in enumerate(pads)]
+        res.count("items_delivered", len(ditems))
+        if sorted(ditems) != sorted(dwant):
+            res.violation("items-lost:callback_only_receiver" if len(ditems) < len(dwant) else "items-wrong:callback_only_receiver",
+                          f"{label}: receiver side {dcb['receiver']} kept only its callback: got {len(ditems)} of {len(dwant)} items")
+        else:
+            for t in range(len(dcb["pads"])):
+                seqs = [it[2] for it in ditems if it[1] == t]
+                if seqs != sorted(seqs):
+                    res.violation("per-sender-order-broken:callback_only_receiver", f"{label}: sender {t}: {seqs[:20]}")
+        if dgot.count("__DEND__") != 1 or dgot[-1:] != ["__DEND__"]:
+            res.violation("callback-endmarker-count:callback_only_receiver", f"{label}: endmarker x{dgot.count('__DEND__')}, last {short(dgot[-1:])}")
     if rest_l or rest_r:
         res.violation("wire-stream-has-partial-frame-at-quiescence", label)
     return True
